@@ -20,7 +20,7 @@ RULE = ("(A) the same generated spec (hierarchy 0-2, shared operators, per-node 
         "edited spec; (D) parser.replace is compared with the tokenizer oracle on random equations over identifier sets that "
         "contain one another; non-trivial = model has an edge or an override (A, B) / edit hits an identifier that is part of a "
         "longer one (C, D); distinct = distinct (spec, mode) hash")
-DECIDING = ['yaml_text_models', 'roundtrip_models', 'derived_templates', 'replace_calls', 'replace_nontrivial', 'derivatives_compared', 'two_variant_roundtrips', 'edit_dictionary_reused', 'three_or_more_variant_roundtrips', 'yaml_shared_update_models']
+DECIDING = ['yaml_text_models', 'roundtrip_models', 'derived_templates', 'replace_calls', 'replace_nontrivial', 'derivatives_compared', 'two_variant_roundtrips', 'edit_dictionary_reused', 'three_or_more_variant_roundtrips', 'yaml_shared_update_models', 'rewritten_path_loads']
 ASSUMPTIONS = ['equation edits address whole identifiers on right-hand sides (the left-hand side form x\' is a separate finding)']
 CASE_TIMEOUT = 180
 FOCUS = ['roundtrip_with_overrides', 'roundtrip_after_update_var', 'replace_lhs_prime', 'roundtrip_same_named_templates']
@@ -45,6 +45,7 @@ def plan(tier, seed):
     # operators with different per-node values, no edges; the reloaded circuit is compared by value (operator names may change)
     cases += [{'family': 'two_variants', 'cseed': rnd.randrange(1 << 30), 'mode': 'two_variants'} for _ in range(30 if tier == 'quick' else 600)]
     cases += [{'family': 'yaml_shared_update', 'cseed': rnd.randrange(1 << 30), 'mode': 'yaml_shared_update'} for _ in range(20 if tier == 'quick' else 300)]
+    cases += [{'family': 'rewrite', 'cseed': rnd.randrange(1 << 30), 'mode': 'rewrite'} for _ in range(16 if tier == 'quick' else 250)]
     return cases
 
 
@@ -86,6 +87,8 @@ def run_case(case, ctx):
             return case_two_variants(case, ctx, rnd, mech, res)
         if mode == 'yaml_shared_update':
             return case_yaml_shared_update(case, ctx, rnd, mech, res)
+        if mode == 'rewrite':
+            return case_rewrite(case, ctx, rnd, mech, res)
         return case_models(case, ctx, rnd, mech, res)
     except observe.Mismatch as e:
         s = str(e)
@@ -202,6 +205,49 @@ def case_yaml_shared_update(case, ctx, rnd, mech, res):
         raise
     mech['yaml_shared_update_models'] = 1
     res.update(status='ok', symptom='', mech=mech, sample={'mode': 'yaml_shared_update', 'update': spec['updates']})
+    return res
+
+
+def case_rewrite(case, ctx, rnd, mech, res):
+    """(B'') a model is written with to_yaml and loaded; then a second model with the same template names but other values is
+    written to the SAME path and loaded again (no cache clearing in between): the second load must be the second model."""
+    from pyrates import CircuitTemplate
+    import copy as _copy
+    if case.get('spec') is not None:
+        spec_a, spec_b = case['spec']['a'], case['spec']['b']
+    else:
+        for _ in range(300):
+            spec_a, feats, risk = gen.gen_net(rnd, pool=gen.SAFE_POOL, n_nodes=rnd.choice([1, 2, 3]), max_types=2, depth=rnd.choice([0, 0, 1]),
+                                              forbid=ctx['excluded'], edge_density=rnd.choice([0.0, 0.4]), unique_types=True)
+            if 'node_type_overrides' in feats or same_named_subcircuits(spec_a):
+                continue
+            break
+        spec_b = _copy.deepcopy(spec_a)
+        vals = gen.Vals(rnd)
+        for o in spec_b['ops'].values():
+            for v, d in o['vars'].items():
+                if d[0] in ('const', 'out', 'var') and isinstance(d[1], float) and d[1] != 0.0:
+                    d[1] = vals.new()
+    res['sig'] = stable_hash([spec_a, spec_b, 'rewrite'])
+    res['features'] += ['rewrite_same_path']
+    res['nontrivial'] = True
+    cwd = os.getcwd()
+    top = spec_a['circ']['name']
+    for tag, sp in (('first', spec_a), ('second', spec_b)):
+        t_py, _ = build.build_python(sp)
+        try:
+            t_py.to_yaml('model_rw.yaml')
+            t_l = CircuitTemplate.from_yaml(f'{cwd}/model_rw/{top}')
+        except Exception as e:
+            res['spec'] = {'a': spec_a, 'b': spec_b}
+            raise observe.Mismatch(f"loud: to_yaml / from_yaml ({tag} model written to the path) raised {type(e).__name__}: {e}")
+        try:
+            check_dynamics(t_l, sp, ctx, rnd, mech, f"{tag} model written to and loaded from one and the same path")
+        except observe.Mismatch:
+            res['spec'] = {'a': spec_a, 'b': spec_b}
+            raise
+    mech['rewritten_path_loads'] = 1
+    res.update(status='ok', symptom='', mech=mech, sample={'mode': 'rewrite'})
     return res
 
 
